@@ -109,4 +109,17 @@ PROPS = {
             {"name": "shutdown", "pkg": "c06", "run": "^TestC06Shutdown$", "shards": {"quick": 2, "thorough": 4}, "timeout": {"quick": 300, "thorough": 900}},
         ],
     },
+    "C03": {
+        "level": "exploration",
+        "level_text": "Race half: recorder-free runs (monitor code adds no synchronisation) of an all-API mix - 4-16 goroutines x hundreds of PRNG operations over publish (sync/async/once/sequential/filtered/panicking handlers, re-entrant publishes), subscribe, unsubscribe, clear, clear-all, has/count, Wait, Replay, ReplayWithUpcast, upcast registration and clearing, SubscribeWithReplay, direct store use and the state materializer - on memory, paged memory, SQLite (file, memory, batched) and durable-streams stores under the race detector with halt_on_error=0; every report is parsed, de-duplicated and attributed (ebu frame => violation). Deadlock half: the complete re-entrancy matrix (8 callback sites x 9 re-entrant calls x 4 handler options, minus the documented exception) and a progress watchdog whose firing is a deadlock only if two goroutine dumps show workload goroutines parked below ebu frames.",
+        "level_note": "A clean run covers the pairs of accesses the workloads executed, not all. Configuration setters are applied before the goroutines start, as the statement allows. SQLite BUSY/LOCKED errors are not races or deadlocks and are ignored. Third-party-only race reports are listed, not decided.",
+        "technique": "runtime monitoring: Go race detector over recorder-free stress workloads + deterministic re-entrancy matrix with goroutine-dump deadlock oracle",
+        "design_ref": "DESIGN.md section 5 C03, sections 4.7-4.8",
+        "rule": "mix: PRNG (store kind, goroutines, op sequence); matrix: enumerated completely; distinct = (store kind, goroutines, number of distinct API operations executed) / the matrix cell; non-trivial = >=2 goroutines executed >=8 different API operations concurrently / the re-entrant call mutates or publishes",
+        "assumptions": ["race reports are attributed by stack frames: github.com/jilio/ebu or a path under the repository"],
+        "parts": [
+            {"name": "reentrancy", "pkg": "c03", "run": "^TestC03Reentrancy$", "shards": {"quick": 1, "thorough": 1}, "timeout": {"quick": 600, "thorough": 900}},
+            {"name": "mix", "pkg": "c03", "run": "^TestC03Mix$", "race": True, "shards": {"quick": 6, "thorough": 16}, "timeout": {"quick": 600, "thorough": 3000}},
+        ],
+    },
 }
